@@ -948,7 +948,12 @@ func runC15(prop, tier string) int {
 	}
 	var js []c15job
 	for i := 0; i < ntrees; i++ {
-		t := gen.NewTree(seed*100103+int64(i), gen.ProfRegen, hz)
+		prof := gen.ProfRegen
+		if i%3 == 1 {
+			// no package named sync in the tree: a parameter may then be called sync, a name only the generated file imports
+			prof.Name, prof.NoSync, prof.SrcName = "regen-nosync", true, "store"
+		}
+		t := gen.NewTree(seed*100103+int64(i), prof, hz)
 		rng := rand.New(rand.NewSource(seed*977 + int64(i)))
 		o := gen.DefaultCaseOpts
 		o.PerIface, o.Multi, o.OtherDest = 1, 2, 0
@@ -989,6 +994,14 @@ func runC15(prop, tier string) int {
 			// before them triggers the open findings KF-regeneration-out-sorts-first / -inconsistent-aliases; the
 			// early-sorting names are exercised on the stale-regen matrix tree, which has neither shape
 			outName = []string{"moq_gen.go", "zz_mock.go", "mocks_test.go"}[j.k%3]
+		}
+		if outName == "mocks_test.go" && (j.k%2 == 0 || (len(c.Ifaces[0].Tags) > 0 && c.Ifaces[0].Tags[0] == "fixed")) {
+			// a _test.go file is not loaded by the next run: the fixed point is then trivial. Kept for some random
+			// interfaces only; the fixed shapes are always regenerated over a file the next run reads
+			outName = "moq_gen.go"
+		}
+		if os.Getenv("VERIF_TRACE") != "" {
+			fmt.Printf("TRACE C15 seed=%d k=%d out=%s argv=%v\n", j.t.Seed, j.k, outName, c.Args())
 		}
 		outRel := outName
 		if c.CwdRoot {
